@@ -40,8 +40,8 @@ CHECKS = {
          "Held on the executions explored except for one recorded known finding (Vst at a level 1e9 times the spread, through WelfordOnline's m2 residue): all views of the statement's three lists x N grid x 8 input classes with ties.",
          "flat windows exempt only for Vst (returns the value) and Rsi under negation (returns 100)"),
  "C13": ("reference-model monitor: exact integer-scaled running sums (i128), running peak and largest relative decline, ln ratio; exact scalar (equality) and f64 at every step of streams of L, 4L, 16L values with one tolerance",
-         "Held on the executions explored: three views x eight stream shapes (new peaks after deeper troughs, equal peaks, monotone, flats, three decades, a high level with a small spread), a third of them with the view constructed over an inner view that already has a history, 16L ~ 3e5 (quick) / 1e7 (thorough), two streams beyond 2^24 values; f64 tolerance 1e-11 of scale (noise observed: 6e-14).",
-         "positive inputs k/64 in [1,1000]"),
+         "Held on the executions explored: three views x eight stream shapes (new peaks after deeper troughs, equal peaks, monotone, flats, three decades, a high level with a small spread), a third of them with the view constructed over an inner view that already has a history, a third of Drawdown's and LnReturn's f64 streams quoted in units of 2^-300, 2^-70 or 2^200, 16L ~ 3e5 (quick) / 1e7 (thorough), two streams beyond 2^24 values; f64 tolerance 1e-11 of scale (noise observed: 6e-14).",
+         "positive inputs k/64 in [1,1000] (times an exact power of two for the ratio views)"),
  "C14": ("pointwise oracle over Script children (outputs dictated), bit-exact comparison after every update; two-history statelessness relation",
          "Held on the executions explored (all nine combinators x f64/f32/exact rational x seeded script pairs incl. zeros, -0, clip ties, denormals, adjacent floats, None prefixes; a third of Tanh's arguments where the function changes regime: 18..20 and 8..10 on a 2^-20 grid, 2^-34..2^-8, 2^5..2^60).",
          "children never relapse to None; libm tanh of the harness build is the one the crate reaches"),
